@@ -397,6 +397,8 @@ class SAMIWriter(BaseWriter):
     def write(self, caption_set):
         caption_set = deepcopy(caption_set)
         sami = BeautifulSoup(SAMI_BASE_MARKUP, "lxml-xml")
+        # a caption with an unclosed style node must not leak into the next write
+        self.open_span = False
 
         caption_set.layout_info = self._relativize_and_fit_to_screen(
             caption_set.layout_info)
